@@ -127,3 +127,21 @@ func main() {
 	}
 	f(o)
 }
+
+func hexDecode(s string) ([]byte, error) {
+	if s == "-" {
+		return nil, nil
+	}
+	return hex.DecodeString(s)
+}
+
+// replayLines returns the request lines stored in a replay file.
+func replayLines(path string) []string {
+	b, err := os.ReadFile(path)
+	must(err)
+	var rp struct {
+		Inputs []string `json:"inputs"`
+	}
+	must(json.Unmarshal(b, &rp))
+	return rp.Inputs
+}
